@@ -171,6 +171,10 @@ package ctfe
 //@ ensures [success-leaves-non-nil] result2 == nil ==> (forall j int :: 0 <= j && j < len(result0.Leaves) ==> result0.Leaves[j] != nil)
 //@ ensures [error-never-200] li.instanceOpts.ErrorMapper == nil && result2 != nil ==> result1 != 200
 //@ ensures [fix-error-500] fix.called && fix.res != nil ==> result1 == 500 && result2 != nil && result0 == nil
+//@ ensures [caller-view] result2 == nil ==> result0 != nil && result1 == 200
+//@ modifies nothing
+//@ note modifies nothing: writes only ExtraData of leaves inside the freshly allocated reply
+//@ fresh result0
 //@ at rpc assert [request-forwarded] rpc.in == req
 //@ at ths assert [maps-backend-error] ths.err == rpc.res1
 
@@ -185,5 +189,107 @@ package ctfe
 //@ ensures [success-is-reply] result2 == nil ==> result0 == rpc.res0 && result0 != nil && result1 == 200 && rpc.res1 == nil
 //@ ensures [error-never-200] li.instanceOpts.ErrorMapper == nil && result2 != nil ==> result1 != 200
 //@ ensures [fix-error-500] fix.called && fix.res != nil ==> result1 == 500 && result2 != nil && result0 == nil
+//@ ensures [caller-view] result2 == nil ==> result0 != nil && result1 == 200
+//@ modifies nothing
+//@ note modifies nothing: writes only ExtraData of the leaf inside the freshly allocated reply
+//@ fresh result0
 //@ at rpc assert [request-forwarded] rpc.in == req
 //@ at fix assert [fixes-returned-leaf] fix.leaf == after(rpc, rpc.res0.Leaf)
+
+//@ func marshalGetEntriesResponse
+//@ props C07 C08
+//@ arith int
+//@ pure
+//@ requires li != nil
+//@ requires forall j int :: 0 <= j && j < len(leaves) ==> leaves[j] != nil
+//@ loop 1 invariant len(jsonRsp.Entries) == rangeindex + 1
+//@ loop 1 invariant forall j int :: 0 <= j && j <= rangeindex ==> jsonRsp.Entries[j].LeafInput == leaves[j].LeafValue && jsonRsp.Entries[j].ExtraData == leaves[j].ExtraData
+//@ ensures [never-fails] result1 == nil
+//@ ensures [one-entry-per-leaf] len(result0.Entries) == len(leaves)
+//@ ensures [bytes-unmodified-in-order] forall j int :: 0 <= j && j < len(leaves) ==> result0.Entries[j].LeafInput == leaves[j].LeafValue && result0.Entries[j].ExtraData == leaves[j].ExtraData
+
+//@ func getEntries
+//@ props C07 C08
+//@ arith int
+//@ stable li &getEntriesMetrics &getEntriesStartPercentiles &MaxGetEntriesAllowed
+//@ site parseGetEntriesRange#1 as pr
+//@ site rpcGetLeavesByRange#1 as rpc
+//@ site UnmarshalBinary#1 as um
+//@ site marshalGetEntriesResponse#1 as mg
+//@ site Write#1 as wr
+//@ requires li != nil && li.rpcClient != nil && li.RequestLog != nil && li.issuanceChainService != nil && w != nil && r != nil
+//@ requires MaxGetEntriesAllowed >= 1 && alignGetEntries != nil && alignedGetEntries != nil && getEntriesMetrics != nil && getEntriesStartPercentiles != nil
+//@ loop 1 invariant forall j int :: 0 <= j && j <= rangeindex ==> rpc.res0.Leaves[j].LeafIndex == pr.res0 + j
+//@ loop 1 invariant forall j int :: 0 <= j && j < len(rpc.res0.Leaves) ==> rpc.res0.Leaves[j] != nil
+//@ ensures [param-error-400-no-rpc] pr.res2 != nil ==> result0 == 400 && result1 != nil && !rpc.called
+//@ ensures [rpc-iff-params-ok] rpc.called <==> pr.res2 == nil
+//@ ensures [backend-error-passed-on] rpc.called && rpc.res2 != nil ==> result0 == rpc.res1 && result1 != nil && !wr.called
+//@ ensures [backend-error-never-200] li.instanceOpts.ErrorMapper == nil && rpc.called && rpc.res2 != nil ==> result0 != 200
+//@ ensures [200-sane] li.instanceOpts.ErrorMapper == nil && result0 == 200 ==> result1 == nil && rpc.called && rpc.res2 == nil && um.called && um.res == nil && after(um, currentRoot.TreeSize) > uint64(pr.res0) && mg.called
+//@ ensures [200-no-surplus] li.instanceOpts.ErrorMapper == nil && result0 == 200 ==> after(rpc, len(rpc.res0.Leaves)) <= pr.res1 + 1 - pr.res0
+//@ ensures [200-contiguous] li.instanceOpts.ErrorMapper == nil && result0 == 200 ==> (forall j int :: 0 <= j && j < after(rpc, len(rpc.res0.Leaves)) ==> after(rpc, rpc.res0.Leaves[j].LeafIndex) == pr.res0 + j)
+//@ ensures [non200-error] result0 != 200 ==> result1 != nil
+//@ ensures [bad-root-500] um.called && um.res != nil ==> result0 == 500
+//@ ensures [small-tree-400] um.called && um.res == nil && after(um, currentRoot.TreeSize) <= uint64(pr.res0) ==> result0 == 400
+//@ at rpc assert [request-range] rpc.req.LogId == li.logID && rpc.req.StartIndex == pr.res0 && rpc.req.Count == pr.res1 + 1 - pr.res0 && 1 <= rpc.req.Count && rpc.req.Count <= pr.maxRange && pr.maxRange == old(MaxGetEntriesAllowed)
+//@ at mg assert [marshals-returned-leaves] mg.leaves == after(rpc, rpc.res0.Leaves)
+//@ dead return#7
+//@ note return#7 (marshalGetEntriesResponse failed) is unreachable: that function never returns an error
+
+//@ func getEntryAndProof
+//@ props C06 C07 C08
+//@ stable li
+//@ site parseGetEntryAndProofParams#1 as pr
+//@ site rpcGetEntryAndProof#1 as rpc
+//@ site UnmarshalBinary#1 as um
+//@ site json.Marshal#1 as jm
+//@ site Write#1 as wr
+//@ requires li != nil && li.rpcClient != nil && li.RequestLog != nil && li.issuanceChainService != nil && w != nil && r != nil
+//@ ensures [param-error-400-no-rpc] pr.res2 != nil ==> result0 == 400 && result1 != nil && !rpc.called
+//@ ensures [rpc-iff-params-ok] rpc.called <==> pr.res2 == nil
+//@ ensures [backend-error-passed-on] rpc.called && rpc.res2 != nil ==> result0 == rpc.res1 && result1 != nil && !wr.called
+//@ ensures [backend-error-never-200] li.instanceOpts.ErrorMapper == nil && rpc.called && rpc.res2 != nil ==> result0 != 200
+//@ ensures [200-sane] li.instanceOpts.ErrorMapper == nil && result0 == 200 ==> result1 == nil && rpc.called && rpc.res2 == nil && um.called && um.res == nil && after(um, currentRoot.TreeSize) >= uint64(pr.res1) && after(rpc, rpc.res0.Leaf != nil && len(rpc.res0.Leaf.LeafValue) > 0 && rpc.res0.Proof != nil)
+//@ ensures [200-proof-present] li.instanceOpts.ErrorMapper == nil && result0 == 200 && pr.res1 > 1 ==> after(rpc, len(rpc.res0.Proof.Hashes) > 0)
+//@ ensures [non200-error] result0 != 200 ==> result1 != nil
+//@ ensures [bad-root-500] um.called && um.res != nil ==> result0 == 500
+//@ ensures [small-tree-400] um.called && um.res == nil && after(um, currentRoot.TreeSize) < uint64(pr.res1) ==> result0 == 400
+//@ at rpc assert [request-fields] rpc.req.LogId == li.logID && rpc.req.LeafIndex == pr.res0 && rpc.req.TreeSize == pr.res1
+//@ at jm assert [served-bytes-are-backend-bytes] jsonRsp.LeafInput == after(rpc, rpc.res0.Leaf.LeafValue) && jsonRsp.ExtraData == after(rpc, rpc.res0.Leaf.ExtraData) && jsonRsp.AuditPath == after(rpc, rpc.res0.Proof.Hashes)
+
+//@ func (*logInfo).SendHTTPError
+//@ props C08
+//@ stable li
+//@ site http.Error#1 as he
+//@ site fmt.Sprintf#1 as sp
+//@ requires li != nil
+//@ ensures [status-forwarded] he.called && he.code == statusCode
+//@ ensures [masked-500-omits-error-text] sp.called <==> !(li.instanceOpts.MaskInternalErrors && statusCode == 500)
+
+//@ func (AppHandler).ServeHTTP
+//@ props C08
+//@ site field:Handler#1 as h
+//@ site SendHTTPError#1 as e405
+//@ site SendHTTPError#2 as e400
+//@ site SendHTTPError#3 as eh
+//@ site SendHTTPError#4 as emis
+//@ site Status#1 as s405
+//@ site Status#2 as s400
+//@ site Status#3 as sh
+//@ site ParseForm#1 as pf
+//@ stable r a.Info &reqsCounter &rspsCounter &rspLatency
+//@ requires a.Info != nil && a.Info.TimeSource != nil && a.Info.RequestLog != nil && a.Handler != nil && r != nil && w != nil
+//@ requires reqsCounter != nil && rspsCounter != nil && rspLatency != nil
+//@ ensures [wrong-method-405-no-handler] old(r.Method) != a.Method ==> !h.called && e405.called && e405.statusCode == 405 && s405.called && s405.arg1 == 405
+//@ ensures [handler-only-for-right-method] h.called ==> old(r.Method) == a.Method && (old(r.Method) != "GET" || (pf.called && pf.res == nil))
+//@ ensures [form-error-400-no-handler] pf.called && pf.res != nil ==> !h.called && e400.called && e400.statusCode == 400
+//@ ensures [handler-error-sent-with-its-status] h.called && h.res1 != nil ==> eh.called && eh.statusCode == h.res0 && eh.err == h.res1
+//@ ensures [non200-without-error-becomes-500] h.called && h.res1 == nil && h.res0 != 200 ==> emis.called && emis.statusCode == 500
+//@ ensures [success-sends-no-error] h.called && h.res1 == nil && h.res0 == 200 ==> !eh.called && !emis.called
+//@ ensures [status-logged-once] h.called ==> sh.called && sh.arg1 == h.res0
+
+//@ func (*logInfo).chargeUser
+//@ props C08
+//@ pure
+//@ requires li != nil
+//@ fresh result
